@@ -366,8 +366,11 @@ func debounce(ch chan *model.PushRequest, stopCh <-chan struct{}, opts DebounceO
 	free := true
 	freeCh := make(chan struct{}, 1)
 
+	var pushMu sync.Mutex
 	push := func(req *model.PushRequest, debouncedEvents int, startDebounce time.Time) {
+		pushMu.Lock()
 		pushFn(req)
+		pushMu.Unlock()
 		updateSent.Add(int64(debouncedEvents))
 		debounceTime.Record(time.Since(startDebounce).Seconds())
 		freeCh <- struct{}{}
@@ -412,7 +415,9 @@ func debounce(ch chan *model.PushRequest, stopCh <-chan struct{}, opts DebounceO
 			if !opts.enableEDSDebounce && model.OnlyHasConfigsOfKind(r.ConfigsUpdated, kind.Endpoints) {
 				// trigger push now, just for EDS
 				go func(req *model.PushRequest) {
+					pushMu.Lock()
 					pushFn(req)
+					pushMu.Unlock()
 					updateSent.Inc()
 				}(r)
 				continue
